@@ -13,6 +13,12 @@ L2: every history is executed on MemoryStorage (and SharedMemoryStorage) and on 
         client's program order and with the identifiers handed out is constructed and replayed on the model's
         concurrent semantics (`Conc.run`): every schedule-independent result must agree, and the final contents
     loaded objects (load_job / load_search) are kept and re-compared after every later call (snapshot).
+      * what the CALLER does with loaded data (pseudo calls `caller_edit`, `store_loaded`): the objects the loads returned are
+        edited in place at every level, or handed back to the storage (and the receiving job then extended through the
+        storage); the model, the map and the verified checker see the storage operations only: every load must answer as if
+        the caller had done nothing.  Systematic small family + generated histories; MemoryStorage and SharedMemoryStorage.
+      * object identities (`Model/StorageAlias.lean`, driver request `alias`): which dicts / lists inside the answers are
+        objects seen before and which are new, compared with the model of the job table as a forest of Python objects.
 L3 (real code only, against a dict-of-dicts "simple map" written in Python):
       unique-id, read-your-writes (+ isolation: the whole loaded record must equal the map's), lost-value,
       snapshot, shared-equals-memory, concurrent unique-id / lost-value / read-your-writes, thread stress,
@@ -233,23 +239,35 @@ def expected_view_out(c, y):
     return y
 
 
-def call_real(st, c):
-    """one method call on a real storage -> OUT (wire form)"""
-    name = c[0]
-    try:
-        r = evaluator_view(st, c) if name in STATUS_VIEWS else getattr(st, name)(*pyargs(c))
-    except Exception as e:   # every exception class is an answer (the model knows four; any other one is a difference)
-        return {"k": "error", "v": type(e).__name__}
+def out_of(name, r):
+    """the answer `r` of method `name` in wire form"""
     kind = RET.get(name) or RET_PSEUDO[name]
     if kind == "none":
         return {"k": "none"} if r is None else {"k": "val", "v": enc(r)}
     if kind == "id":
         return {"k": "id", "v": r} if isinstance(r, str) else {"k": "val", "v": enc(r)}
     if kind == "ids":
-        return {"k": "ids", "v": list(r)}
+        if isinstance(r, (list, tuple)) and all(isinstance(x, str) for x in r):
+            return {"k": "ids", "v": list(r)}
+        return {"k": "val", "v": enc(r)}      # not a list of identifiers: an answer like any other (and a difference)
     if kind == "vals":
-        return {"k": "vals", "v": [enc(x) for x in r]}
+        return {"k": "vals", "v": [enc(x) for x in r]} if isinstance(r, (list, tuple)) else {"k": "val", "v": enc(r)}
     return {"k": "val", "v": enc(r)}
+
+
+def call_real2(st, c):
+    """one method call on a real storage -> (OUT in wire form, the object the call returned)"""
+    name = c[0]
+    try:
+        r = evaluator_view(st, c) if name in STATUS_VIEWS else getattr(st, name)(*pyargs(c))
+    except Exception as e:   # every exception class is an answer (the model knows four; any other one is a difference)
+        return {"k": "error", "v": type(e).__name__}, None
+    return out_of(name, r), r
+
+
+def call_real(st, c):
+    """one method call on a real storage -> OUT (wire form)"""
+    return call_real2(st, c)[0]
 
 
 # --------------------------------------------------------------------------- the "simple map" (L3 reference)
@@ -429,49 +447,217 @@ class Snap:
                 return {"loaded_by": c, "at": idx, "changed_after": now, "was": json.loads(was), "is": enc(obj)}
         return None
 
+    def rebase(self):
+        """the caller edited an object it holds: what the kept objects look like now is the new reference"""
+        self.kept = [(c, obj, json.dumps(enc(obj)), idx) for c, obj, _, idx in self.kept]
+
+    def drop(self, idx):
+        self.kept = [k for k in self.kept if k[3] != idx]
+
+
+# --------------------------------------------------------------------------- what the CALLER does with loaded data
+#
+# Two pseudo calls say what a caller does with an object a load returned to it.  They are not storage operations: the
+# model, the simple map and the verified checker never see them, and every load must answer as if they had not happened
+# ("each load returns exactly the last value stored", "a write to one job never changes another").
+#   ["caller_edit", h, mode]                         edit in place the object returned by call number h of the history
+#   ["store_loaded", h, path, method, target, key]   hand (the part at `path` of) that object back to the storage:
+#                                                    method(target[, key], <that very object>)
+# Whose object is it?  load_job / load_search return snapshots (the statement): the whole tree belongs to the caller, who
+# may edit every container in it and give any part of it to the storage again.  The other loads return a fresh list / dict
+# whose items may be live (load_jobs: documented): only that outer container is the caller's.  Once (a part of) an object
+# has been handed back it is shared with the storage by the caller's own doing (an in-process MemoryStorage keeps what it is
+# given by reference, as a dict does; the statement says nothing about copies on the store side): such an object is neither
+# edited nor handed back a second time (the runner skips such actions, so a shrunk or hand-written replay cannot demand it).
+
+CALLER = ("caller_edit", "store_loaded")
+HANDLE_DEEP = ("load_job", "load_search")
+HANDLE_OUTER = ("load_jobs", "load_all_search_ids", "load_all_job_ids", "load_out_from_all_jobs", "load_metadata_from_all_jobs")
+EDIT_MODES = {0: "top", 1: "nested", 2: "all", 3: "drop"}
+_MISSING = object()
+
+
+def has_caller(calls):
+    return any(c[0] in CALLER for c in calls)
+
+
+def _containers_below(obj):
+    """every dict / list strictly inside obj (reached through dicts, lists and tuples), each once"""
+    seen, out, stack = {id(obj)}, [], [obj]
+    while stack:
+        x = stack.pop()
+        kids = list(x.values()) if isinstance(x, dict) else list(x) if isinstance(x, (list, tuple)) else []
+        for y in kids:
+            if isinstance(y, (dict, list, tuple)) and id(y) not in seen:
+                seen.add(id(y))
+                if not isinstance(y, tuple):
+                    out.append(y)
+                stack.append(y)
+    return out
+
+
+def _edit(x, mark, replace_containers):
+    try:
+        if isinstance(x, dict):
+            for k in list(x):
+                if replace_containers or not isinstance(x[k], (dict, list, tuple)):
+                    x[k] = mark
+            x["_edited"] = mark
+        elif isinstance(x, list):
+            for i in range(len(x)):
+                if replace_containers or not isinstance(x[i], (dict, list, tuple)):
+                    x[i] = mark
+            x.append(mark)
+    except Exception:
+        pass   # an object the caller cannot edit is as good as private
+
+
+def caller_edit(obj, mode, deep, mark):
+    """the caller edits, in place, an object a load returned to it.
+    top: every entry of the returned container replaced, one added; nested: the same inside every container below it
+    (entries that are containers are kept and edited themselves); all: both levels; drop: the first entry removed"""
+    if not deep and mode in (1, 2):
+        mode = 0
+    if mode == 3:
+        try:
+            if isinstance(obj, dict) and obj:
+                del obj[next(iter(obj))]
+            elif isinstance(obj, list) and obj:
+                obj.pop(0)
+        except Exception:
+            pass
+        return
+    if mode in (1, 2):
+        for x in _containers_below(obj):
+            _edit(x, mark, False)
+    if mode == 0:
+        _edit(obj, mark, True)
+    elif mode == 2:
+        _edit(obj, mark, False)
+
+
+def sub_object(obj, path):
+    for p in path:
+        if isinstance(obj, dict) and p in obj:
+            obj = obj[p]
+        elif isinstance(obj, (list, tuple)) and isinstance(p, int) and -len(obj) <= p < len(obj):
+            obj = obj[p]
+        else:
+            return _MISSING
+    return obj
+
+
+def lower_store_loaded(c, obj):
+    """-> (the storage call with the object's present value on the wire, positional Python arguments holding the object)"""
+    _, _h, _path, method, target, key = c
+    w = enc(obj)
+    if method in ("store_job", "store_job_metadata", "store_search_value"):
+        return [method, target, key, w], (target, key, obj)
+    if method == "store_job_out":
+        return [method, target, w], (target, obj)
+    if method == "store_job_in":
+        return [method, target, {"t": [w]}, None], (target, (obj,), None)
+    return None, None
+
+
+class Runner:
+    """executes a history call by call on a real storage; keeps the objects the loads returned (the caller's handles)"""
+
+    def __init__(self, st, label, judge=True, opaque=False):
+        self.st, self.label, self.judge, self.opaque = st, label, judge, opaque
+        self.sm, self.snap = SimpleMap(label), Snap()
+        self.calls, self.outs, self.eff, self.snap_bad = [], [], [], None
+        self.handles, self.given = {}, set()
+
+    def _caller(self, c, idx):
+        """-> (out, effective storage call or None)"""
+        h = c[1]
+        obj = self.handles.get(h, _MISSING) if isinstance(h, int) else _MISSING
+        if obj is _MISSING or h in self.given:
+            return {"k": "skipped"}, None
+        deep = self.calls[h][0] in HANDLE_DEEP
+        if c[0] == "caller_edit":
+            caller_edit(obj, c[2] if len(c) > 2 else 2, deep, 900 + idx)
+            self.snap.rebase()
+            return {"k": "caller"}, None
+        if not deep or len(c) != 6:
+            return {"k": "skipped"}, None
+        part = sub_object(obj, c[2])
+        if part is _MISSING or (c[3] == "store_search_value" and c[5] in RESERVED):
+            return {"k": "skipped"}, None
+        low, args = lower_store_loaded(c, part)
+        if low is None:
+            return {"k": "skipped"}, None
+        self.given.add(h)
+        self.snap.drop(h)
+        try:
+            r = getattr(self.st, c[3])(*args)
+            out = out_of(c[3], r)
+        except Exception as e:
+            out = {"k": "error", "v": type(e).__name__}
+        return out, low
+
+    def do(self, c):
+        idx = len(self.calls)
+        self.calls.append(c)
+        name = c[0]
+        if name in CALLER:
+            out, e = self._caller(c, idx)
+        else:
+            out, obj = call_real2(self.st, c)
+            e = c
+            if out["k"] != "error" and isinstance(obj, (dict, list)) and (name in HANDLE_DEEP or name in HANDLE_OUTER):
+                self.handles[idx] = obj
+                if name in HANDLE_DEEP:
+                    self.snap.keep(c, obj, idx)
+                    if self.opaque and self.snap_bad is None:
+                        nc = not_a_copy(obj)
+                        if nc is not None:
+                            self.snap_bad = {"loaded_by": c, "at": idx, **nc}
+        self.outs.append(out)
+        self.eff.append(e)
+        if self.judge and e is not None:
+            self._judge(tok(e) if self.opaque else e, out)
+        if self.snap_bad is None and self.snap.kept and name != "caller_edit":
+            self.snap_bad = self.snap.check(idx)
+        return out
+
+    def _judge(self, c, out):
+        sm = self.sm
+        if c[0] in ("job_status", "running_job_status"):
+            # the evaluator-level getter shows JobStatus(<stored status>) (ValueError if that is no JobStatus)
+            j = sm.jobs.get(c[1])
+            if j is None:
+                if out["k"] != "error":
+                    sm.flag("phantom", c[0], {"job": c[1], "got": out})
+            elif not (j["opaque"] or sm.searches[j["sid"]].get("opaque")):
+                want = expected_view_out(c, {"k": "val", "v": j["rec"].get("status")})
+                if cout(out) != cout(want):
+                    sm.flag("read-your-writes", c[0], {"job": c[1], "got": out, "want": want})
+        elif c[0] == "job_status_set":
+            sm.observe(to_storage_call(c), out)
+        else:
+            sm.observe(c, out)
+
+
+def run_history_eff(st, calls, label, judge=True):
+    """-> (outs, simple-map verdicts, snapshot verdict, effective storage calls: None for a pure caller action, the
+    concrete store call for a hand-back)"""
+    rn = Runner(st, label, judge=judge, opaque=has_opaque(calls))
+    for c in calls:
+        rn.do(c)
+    return rn.outs, rn.sm.bad, rn.snap_bad, rn.eff
+
 
 def run_history(st, calls, label, judge=True):
     """-> (outs, simple-map verdicts, snapshot verdict)"""
-    sm = SimpleMap(label)
-    snap = Snap()
-    outs, snap_bad = [], None
-    opaque = has_opaque(calls)
-    for idx, c in enumerate(calls):
-        name = c[0]
-        if name in ("load_job", "load_search"):
-            try:
-                obj = getattr(st, name)(c[1])
-                out = {"k": "val", "v": enc(obj)}
-                snap.keep(c, obj, idx)
-                if opaque and snap_bad is None:
-                    nc = not_a_copy(obj)
-                    if nc is not None:
-                        snap_bad = {"loaded_by": c, "at": idx, **nc}
-            except Exception as e:
-                out = {"k": "error", "v": type(e).__name__}
-        else:
-            out = call_real(st, c)
-        outs.append(out)
-        if opaque:
-            c = tok(c)
-        if judge:
-            if c[0] in ("job_status", "running_job_status"):
-                # the evaluator-level getter shows JobStatus(<stored status>) (ValueError if that is no JobStatus)
-                j = sm.jobs.get(c[1])
-                if j is None:
-                    if out["k"] != "error":
-                        sm.flag("phantom", c[0], {"job": c[1], "got": out})
-                elif not (j["opaque"] or sm.searches[j["sid"]].get("opaque")):
-                    want = expected_view_out(c, {"k": "val", "v": j["rec"].get("status")})
-                    if cout(out) != cout(want):
-                        sm.flag("read-your-writes", c[0], {"job": c[1], "got": out, "want": want})
-            elif c[0] == "job_status_set":
-                sm.observe(to_storage_call(c), out)
-            else:
-                sm.observe(c, out)
-        if snap_bad is None and snap.kept:
-            snap_bad = snap.check(idx)
-    return outs, sm.bad, snap_bad
+    return run_history_eff(st, calls, label, judge)[:3]
+
+
+def storage_level(calls, outs, eff):
+    """the storage operations of a history with their answers (caller actions left out / lowered)"""
+    ks = [i for i, e in enumerate(eff) if e is not None]
+    return [eff[i] for i in ks], [outs[i] for i in ks], ks
 
 
 # --------------------------------------------------------------------------- concrete calls from kinds
@@ -584,6 +770,27 @@ class Sink:
                 ck.fail(fp, what, case, detail)
 
 
+def drop_call(calls, i):
+    """the history without call i (and without the caller actions on the object call i returned); the call numbers the
+    remaining caller actions refer to are renumbered"""
+    gone = {i} | {k for k, c in enumerate(calls) if c[0] in CALLER and c[1] == i}
+    renum, n = {}, 0
+    for k in range(len(calls)):
+        if k not in gone:
+            renum[k] = n
+            n += 1
+    out = []
+    for k, c in enumerate(calls):
+        if k in gone:
+            continue
+        if c[0] in CALLER:
+            if c[1] not in renum:
+                continue
+            c = [c[0], renum[c[1]]] + list(c[2:])
+        out.append(c)
+    return out
+
+
 def shrink_history(storage_label, calls, clause, method, factory):
     """delete calls while the same clause still fails on the same method"""
 
@@ -598,21 +805,27 @@ def shrink_history(storage_label, calls, clause, method, factory):
     i = len(best) - 1
     tries = 0
     while i >= 0 and tries < 300:
-        cand = best[:i] + best[i + 1:]
+        cand = drop_call(best, i)
         tries += 1
         if cand and fails(cand):
             best = cand
-        i -= 1
+        i = min(i, len(best)) - 1
     return best
+
+
+def variant(label, calls):
+    """4th component of the fingerprint: the storage, and what the caller of the (shrunk) history does with loaded data"""
+    kinds = sorted({c[0] for c in calls if c[0] in CALLER})
+    return label + ("/" + "+".join(kinds) if kinds else "")
 
 
 def judge_history(sink, calls, label, outs, bad, snap_bad, factory):
     for clause, method, detail in bad[:3]:
         small = shrink_history(label, calls, clause, method, factory) if len(calls) <= 60 else calls
-        sink.fail(f"C13|{clause}|{method}|{label}", f"{label}.{method}: {clause}", {"kind": "history", "storage": label, "calls": small}, detail)
+        sink.fail(f"C13|{clause}|{method}|{variant(label, small)}", f"{label}.{method}: {clause}", {"kind": "history", "storage": label, "calls": small}, detail)
     if snap_bad is not None:
         small = shrink_history(label, calls, "snapshot", snap_bad["loaded_by"][0], factory) if len(calls) <= 60 else calls
-        sink.fail(f"C13|snapshot|{snap_bad['loaded_by'][0]}|{label}", f"{label}: object returned by {snap_bad['loaded_by'][0]} changed after a later call",
+        sink.fail(f"C13|snapshot|{snap_bad['loaded_by'][0]}|{variant(label, small)}", f"{label}: object returned by {snap_bad['loaded_by'][0]} changed after a later call",
                   {"kind": "history", "storage": label, "calls": small}, snap_bad)
 
 
@@ -778,13 +991,58 @@ def gen_value_objects(rng, depth=0):
     return gen_value(rng, depth)
 
 
-def gen_history(rng, n, malformed, valgen=None):
-    """calls are generated against a running MemoryStorage so that most of them hit existing objects"""
+LOADED_PATHS = {"load_job": [[], ["metadata"], ["in"], ["in", "kwargs"], ["in", "args"], ["out"], ["intermediate"], ["intermediate", "budget"]],
+                "load_search": [["0"], ["0", "metadata"], ["1", "metadata"], ["1"], ["0", "in"], ["2", "metadata"]]}
+
+
+def gen_caller_action(rng, rn, jids, sids):
+    """what a caller does with an object an earlier load of the running history returned -> (action, follow-up calls)"""
+    live = [h for h in rn.handles if h not in rn.given]
+    if not live:
+        return None, []
+    h = rng.choice(live[-4:])
+    src = rn.calls[h]
+    deep = src[0] in HANDLE_DEEP
+    again = [list(src)]                      # the same load once more: it must still show what is stored
+    if src[0] == "load_job":
+        again.append([rng.choice(["load_job_status", "job_status", "running_job_status", "load_job"]), src[1]])
+    if not deep or rng.random() < 0.5:
+        return ["caller_edit", h, rng.choice([0, 3]) if not deep else rng.choice([0, 1, 2, 2, 3])], again
+    target = rng.choice(jids[-6:])
+    method = rng.choice(["store_job", "store_job", "store_job", "store_job_out", "store_job_metadata", "store_search_value", "store_job_in"])
+    path = rng.choice(LOADED_PATHS[src[0]])
+    key = rng.choice(["a", "b"])
+    if method == "store_job":
+        key = rng.choice(["metadata", "metadata", "extra_" + key])
+    if method == "store_search_value":
+        target = rng.choice(sids)
+    act = ["store_loaded", h, path, method, target, key]
+    follow = []
+    if method != "store_search_value" and rng.random() < 0.8:
+        # the only call that changes a stored object in place: extend / overwrite the metadata of the job that received it
+        follow.append(["store_job_metadata", target, rng.choice(["a", "b", "k"]), {"i": rng.randint(60, 99)}])
+    return act, follow + again
+
+
+def gen_history(rng, n, malformed, valgen=None, alias=0.0):
+    """calls are generated against a running MemoryStorage so that most of them hit existing objects.
+    alias > 0: with that probability per step the caller edits / hands back an object an earlier load returned"""
     valgen = valgen or gen_value
-    st = new_memory()
-    calls, outs = [], []
-    for _ in range(n):
+    rn = Runner(new_memory(), "generator", judge=False)
+    calls, outs = rn.calls, rn.outs
+    pending = []
+    while len(calls) < n:
         sids, jids = ids_of(calls, outs)
+        if pending:
+            rn.do(pending.pop(0))
+            continue
+        if alias and jids and rng.random() < alias:
+            act, pending = gen_caller_action(rng, rn, jids, sids)
+            if act is not None:
+                rn.do(act)
+                if rng.random() < 0.3:     # sometimes other calls come first
+                    pending = []
+                continue
         x = rng.random()
         if not sids or x < 0.04:
             kind = "cs"
@@ -806,9 +1064,7 @@ def gen_history(rng, n, malformed, valgen=None):
         v = valgen(rng)
         if malformed and jids and rng.random() < 0.04:
             # metadata replaced through store_job (dict or not), then used
-            c = ["store_job", jid, "metadata", rng.choice([None, {"i": 3}, {"l": []}, {"s": "m"}, {"d": [["a", {"i": 1}]]}, {"d": []}])]
-            calls.append(c)
-            outs.append(call_real(st, c))
+            rn.do(["store_job", jid, "metadata", rng.choice([None, {"i": 3}, {"l": []}, {"s": "m"}, {"d": [["a", {"i": 1}]]}, {"d": []}])])
             kind = rng.choice(["smeta", "lmeta", "ljob", "smeta"])
         c = {
             "cs": ["create_new_search"], "cj": ["create_new_job", sid], "sj": ["store_job", jid, key if malformed else "extra_" + key, v],
@@ -825,9 +1081,8 @@ def gen_history(rng, n, malformed, valgen=None):
             c = [rng.choice(["job_status", "running_job_status"]), c[1]]
         elif c[0] == "store_job_status" and rng.random() < 0.5:
             c = ["job_status_set", c[1], c[2]]
-        calls.append(c)
-        outs.append(call_real(st, c))
-    return calls
+        rn.do(c)
+    return [list(c) for c in calls]
 
 
 def long_worker(item):
@@ -934,6 +1189,363 @@ def object_histories(ck, drv):
                 sink.mismatch({"kind": "history", "storage": "MemoryStorage", "calls": calls[: i + 1]}, {"call": i, "impl": cout(x), "model": cout(y)})
                 break
     sink.fold(ck)
+
+
+ALIAS_PREAMBLE = [
+    ["create_new_search"], ["create_new_search"], ["create_new_job", "0"], ["create_new_job", "0"], ["create_new_job", "1"],
+    ["store_job_in", "0.0", {"t": [{"d": [["x", {"i": 1}]]}]}, {"d": [["foo", {"l": [{"i": 1}, {"i": 2}]}]]}],
+    ["store_job_metadata", "0.0", "a", {"d": [["p", {"i": 2}]]}],
+    ["store_job_out", "0.0", {"l": [{"i": 1}, {"d": [["q", None]]}]}],
+    ["store_job_metadata", "0.1", "b", {"i": 5}],
+    ["store_job_out", "0.1", {"d": [["objective", {"f": "1/2"}]]}],
+    ["store_search_value", "0", "a", {"d": [["p", {"l": []}]]}],
+]
+ALIAS_READS = [["load_job", "0.0"], ["load_job_status", "0.0"], ["job_status", "0.0"], ["running_job_status", "0.0"], ["load_search", "0"],
+               ["load_jobs", ["0.0", "0.1"]], ["load_all_job_ids", "0"], ["load_all_search_ids"], ["load_out_from_all_jobs", "0"],
+               ["load_metadata_from_all_jobs", "0", "a"], ["load_search_value", "0", "a"], ["load_job", "0.1"], ["load_job", "1.0"], ["load_search", "1"]]
+ALIAS_LOADS = [["load_job", "0.0"], ["load_search", "0"], ["load_jobs", ["0.0", "0.1"]], ["load_all_job_ids", "0"], ["load_all_search_ids"],
+               ["load_out_from_all_jobs", "0"], ["load_metadata_from_all_jobs", "0", "a"]]
+
+
+def alias_systematic():
+    """small histories, enumerated: a load, what the caller does with the object it got, then every kind of read.
+    (1) every load that returns a container x every way of editing it x {loaded once, loaded twice, a store to another job in
+    between}; (2) every part of a loaded job / search x every store method x {the same job, another job of the search, a job
+    of another search} as receiver, followed by the in-place write the storage offers (store_job_metadata on the receiver)."""
+    P, n = ALIAS_PREAMBLE, len(ALIAS_PREAMBLE)
+    for load in ALIAS_LOADS:
+        for mode in EDIT_MODES:
+            if load[0] not in HANDLE_DEEP and mode in (1, 2):
+                continue
+            yield P + [load, ["caller_edit", n, mode]] + ALIAS_READS
+            yield P + [load, load, ["caller_edit", n, mode]] + ALIAS_READS + [["caller_edit", n + 1, mode]] + ALIAS_READS[:6]
+            yield P + [load, ["store_job_out", "1.0", {"i": 3}], ["caller_edit", n, mode], ["store_job_metadata", "0.1", "a", {"i": 4}]] + ALIAS_READS
+    for load in ALIAS_LOADS[:2]:
+        for path in LOADED_PATHS[load[0]]:
+            for method, key in (("store_job", "metadata"), ("store_job", "extra_a"), ("store_job_out", None), ("store_job_metadata", "a"),
+                                ("store_search_value", "b"), ("store_job_in", None)):
+                for target in ("0.0", "0.1", "1.0"):
+                    t = target.split(".")[0] if method == "store_search_value" else target
+                    j = "1.0" if method == "store_search_value" else target
+                    yield (P + [load, ["store_loaded", n, path, method, t, key], ["store_job_metadata", j, "k", {"i": 7}],
+                                ["store_job_metadata", j, "a", {"s": "w"}]] + ALIAS_READS + [list(load)])
+
+
+# --------------------------------------------------------------------------- object identities (Model/StorageAlias.lean)
+#
+# L2 for the world of OBJECTS: which dicts / lists inside the answers are the very objects seen before (`is`), and which
+# are new.  Scripts over one search: creates, stores of freshly built objects and of parts of loaded objects (each loaded
+# object handed back at most once: the discipline `AOp.ok` of the model), load_job / load_search (deep copies), load_jobs
+# (live job dicts), and in-place edits by the caller of what it holds (loaded copies; the outer dict of load_jobs; now and
+# then a live job dict).  The driver's `alias` request returns every answer with the identity of each container; both
+# transcripts are renumbered by first occurrence and must be equal.
+
+
+def _container_paths(obj, limit=3):
+    """string-key paths (through dicts only) to the dicts / lists inside obj"""
+    out, stack = [], [([], obj)]
+    while stack:
+        path, x = stack.pop()
+        if isinstance(x, (dict, list)):
+            out.append((path, x))
+        if isinstance(x, dict) and len(path) < limit:
+            for k, y in x.items():
+                if isinstance(k, str):
+                    stack.append((path + [k], y))
+    return out
+
+
+def enc_ids(v, ren, keep, rekey=None):
+    """wire form with the identity of every dict / list (renumbered by first occurrence; entries sorted by key)"""
+    if isinstance(v, (dict, list)):
+        keep.append(v)
+        n = ren.setdefault(id(v), len(ren))
+        if isinstance(v, dict):
+            items = sorted(((rekey(k) if rekey else str(k)), x) for k, x in v.items())
+            return {"d": [[k, enc_ids(x, ren, keep)] for k, x in items], "id": n}
+        return {"l": [enc_ids(x, ren, keep) for x in v], "id": n}
+    if isinstance(v, tuple):
+        return {"t": [enc_ids(x, ren, keep) for x in v]}
+    return enc(v)
+
+
+def canon_ids(w, ren):
+    """the driver's answer, renumbered the same way"""
+    if isinstance(w, dict):
+        if "d" in w:
+            n = ren.setdefault(w["id"], len(ren))
+            return {"d": [[k, canon_ids(x, ren)] for k, x in sorted(w["d"], key=lambda p: p[0])], "id": n}
+        if "l" in w:
+            n = ren.setdefault(w["id"], len(ren))
+            return {"l": [canon_ids(x, ren) for x in w["l"]], "id": n}
+        if "t" in w:
+            return {"t": [canon_ids(x, ren) for x in w["t"]]}
+    return w
+
+
+def run_identity_script(rng, nops):
+    """generates a script against a running MemoryStorage -> (script for the model, real transcript, note)"""
+    st = new_memory()
+    sid = st.create_new_search()
+    ren, keep = {}, []
+    script, real = [], []
+    jids = []
+    handles = []   # per successful load: {"obj", "kind": job|all|live, "given": bool}
+
+    def ref_new():
+        w = gen_value(rng, 1)
+        return {"new": w}, dec(w)
+
+    def do(op, fn, rekey=None):
+        script.append(op)
+        try:
+            r = fn()
+        except Exception as e:
+            real.append({"k": "error", "v": type(e).__name__})
+            return None
+        real.append({"k": "none"} if r is None else {"k": "val", "v": enc_ids(r, ren, keep, rekey)})
+        return r
+
+    def new_job():
+        want = f"{sid}.{len(jids)}"
+        got = st.create_new_job(sid)
+        script.append(["new_job", want])
+        real.append({"k": "none"} if got == want else {"k": "val", "v": {"s": f"create_new_job returned {got!r}"}})
+        jids.append(want)
+
+    new_job()
+    new_job()
+    while len(script) < nops:
+        x = rng.random()
+        jid = rng.choice(jids) if rng.random() < 0.93 else f"{sid}.{len(jids) + 3}"
+        if x < 0.08:
+            new_job()
+        elif x < 0.40:
+            # a store: a freshly built object, or a part of a loaded copy (each loaded object handed back at most once)
+            deep = [h for h in handles if h["kind"] != "live" and not h["given"]]
+            deep = [(h, [c for c in _container_paths(h["obj"]) if c[0] or h["kind"] != "all"]) for h in deep]
+            deep = [(h, cs) for h, cs in deep if cs]
+            if deep and rng.random() < 0.5:
+                h, cs = rng.choice(deep)
+                path, obj = rng.choice(cs)
+                mpath = ([f"{sid}.{path[0]}"] + path[1:]) if (h["kind"] == "all" and path) else path
+                ref = {"held": h["n"], "path": mpath}
+                h["given"] = True
+            else:
+                ref, obj = ref_new()
+            if rng.random() < 0.5:
+                key = rng.choice(["metadata", "metadata", "out", "extra", "in"])
+                do(["store_job", jid, key, ref], lambda: st.store_job(jid, key, obj))
+            else:
+                key = rng.choice(["a", "b", "k"])
+                do(["store_meta", jid, key, ref], lambda: st.store_job_metadata(jid, key, obj))
+        elif x < 0.58:
+            r = do(["load_job", jid], lambda: st.load_job(jid))
+            if r is not None:
+                handles.append({"obj": r, "kind": "job", "given": False, "n": len(handles)})
+        elif x < 0.64:
+            r = do(["load_all"], lambda: st.load_search(sid), rekey=lambda k: f"{sid}.{k}")
+            if r is not None:
+                handles.append({"obj": r, "kind": "all", "given": False, "n": len(handles)})
+        elif x < 0.74:
+            js = [rng.choice(jids) for _ in range(rng.randint(0, 3))]
+            r = do(["load_jobs", js], lambda: st.load_jobs(js))
+            if r is not None:
+                handles.append({"obj": r, "kind": "live", "given": False, "n": len(handles)})
+        else:
+            # the caller edits, in place, an object it holds
+            mine = [h for h in handles if not h["given"]]
+            if not mine:
+                continue
+            h = rng.choice(mine[-4:])
+            if h["kind"] == "live":
+                cands = [([], h["obj"])]
+                if rng.random() < 0.3:   # a live job dict (load_jobs hands out the storage's own dicts: documented)
+                    cands = [(p, o) for p, o in _container_paths(h["obj"], 2) if p]
+            else:
+                cands = [c for c in _container_paths(h["obj"]) if c[0] or h["kind"] != "all"]
+            if not cands:
+                continue
+            path, obj = rng.choice(cands)
+            mpath = ([f"{sid}.{path[0]}"] + path[1:]) if (h["kind"] == "all" and path) else path
+            ref = {"held": h["n"], "path": mpath}
+            if isinstance(obj, dict):
+                keys = [k for k in obj if isinstance(k, str)]
+                y = rng.random()
+                if y < 0.6 or not keys:
+                    key = rng.choice(keys + ["z", "out"]) if keys else "z"
+                    r2, o2 = ref_new()
+                    do(["edit", ref, ["set", key, r2]], lambda: obj.__setitem__(key, o2))
+                elif y < 0.85:
+                    key = rng.choice(keys)
+                    do(["edit", ref, ["del", key]], lambda: obj.__delitem__(key))
+                else:
+                    do(["edit", ref, ["clear"]], lambda: obj.clear())
+            else:
+                if rng.random() < 0.8:
+                    r2, o2 = ref_new()
+                    do(["edit", ref, ["append", r2]], lambda: obj.append(o2))
+                else:
+                    do(["edit", ref, ["clear"]], lambda: obj.clear())
+    do(["load_jobs", list(jids)], lambda: st.load_jobs(list(jids)))
+    do(["load_all"], lambda: st.load_search(sid), rekey=lambda k: f"{sid}.{k}")
+    return script, real
+
+
+def exec_identity_script(script):
+    """runs a stored script on a fresh MemoryStorage -> the real transcript (objects renumbered by first occurrence)"""
+    st = new_memory()
+    sid = st.create_new_search()
+    ren, keep, real, handles = {}, [], [], []
+
+    def resolve(ref):
+        if "new" in ref:
+            return dec(ref["new"])
+        obj, kind = handles[ref["held"]]
+        path = list(ref["path"])
+        if kind == "all" and path:
+            path[0] = path[0].split(".", 1)[-1]
+        return sub_object(obj, path)
+
+    for op in script:
+        name = op[0]
+        try:
+            kind = None
+            if name == "new_job":
+                got = st.create_new_job(sid)
+                r = None if got == op[1] else f"create_new_job returned {got!r}"
+            elif name in ("store_job", "store_meta"):
+                obj = resolve(op[3])
+                if obj is _MISSING:
+                    real.append({"k": "unresolved"})
+                    continue
+                r = (st.store_job if name == "store_job" else st.store_job_metadata)(op[1], op[2], obj)
+            elif name == "load_job":
+                r, kind = st.load_job(op[1]), "job"
+            elif name == "load_all":
+                r, kind = st.load_search(sid), "all"
+            elif name == "load_jobs":
+                r, kind = st.load_jobs(list(op[1])), "live"
+            elif name == "edit":
+                obj, e = resolve(op[1]), op[2]
+                if obj is _MISSING or not isinstance(obj, (dict, list)):
+                    real.append({"k": "unresolved"})
+                    continue
+                if e[0] == "set":
+                    obj[e[1]] = resolve(e[2])
+                elif e[0] == "del":
+                    del obj[e[1]]
+                elif e[0] == "append":
+                    obj.append(resolve(e[1]))
+                else:
+                    obj.clear()
+                r = None
+            else:
+                raise common.HarnessError(f"unknown script operation {op}")
+        except common.HarnessError:
+            raise
+        except Exception as e:
+            real.append({"k": "error", "v": type(e).__name__})
+            continue
+        if kind is not None:
+            handles.append((r, kind))
+        real.append({"k": "none"} if r is None else
+                    {"k": "val", "v": enc_ids(r, ren, keep, (lambda k: f"{sid}.{k}") if kind == "all" else None)})
+    return real
+
+
+def compare_identity(sink, script, real, rep):
+    ren = {}
+    model = [({"k": "val", "v": canon_ids(o["v"], ren)} if o["k"] == "val" else o) for o in rep["outs"]]
+    for i, (x, y) in enumerate(zip(real, model)):
+        if x != y:
+            sink.mismatch({"kind": "identity-script", "ops": script[: i + 1]},
+                          {"what": "the objects in an answer of MemoryStorage are not the ones the model of object identities predicts (same object / new object / value)",
+                           "op": i, "impl": x, "model": y})
+            return False
+    return True
+
+
+def identity_histories(sink, drv, rng, count):
+    metas, reqs = [], []
+    for _ in range(count):
+        script, _online = run_identity_script(rng, rng.choice([8, 14, 25, 40]))
+        real = exec_identity_script(script)     # the stored script alone reproduces the run (what a replay executes)
+        if real != _online:
+            sink.mismatch({"kind": "identity-script", "ops": script}, {"what": "MemoryStorage is not deterministic: running the same script again gave other answers"})
+            continue
+        metas.append((script, real))
+        reqs.append({"op": "alias", "ops": script})
+        sink.case({"kind": "identity-script", "ops": script}, nontrivial=True)
+        sink.count("schedule:object-identities")
+        for op in script:
+            sink.count("aop:" + op[0] + (":" + op[2][0] if op[0] == "edit" else "") + (":loaded-object" if op[0].startswith("store") and "held" in op[3] else ""))
+    for (script, real), rep in zip(metas, drv.ask_all(reqs)):
+        compare_identity(sink, script, real, rep)
+
+
+def alias_worker(item):
+    """what the caller does with loaded data must not matter: histories in which the objects returned by the loads are edited
+    in place by the caller, or handed back to the storage (and the receiving job then extended through the storage), run on
+    MemoryStorage, SharedMemoryStorage, the model and the verified checker (the latter two see the storage operations only)."""
+    seed, part, nparts, ngen = item
+    import random
+
+    common.use_repo_sources()
+    rng = random.Random(seed)
+    sink = Sink()
+    factory = SharedFactory()
+    reqs, metas, checks = [], [], []
+    try:
+        hists = [("systematic", [list(c) for c in h]) for n, h in enumerate(alias_systematic()) if n % nparts == part]
+        for t in range(ngen):
+            hists.append(("generated", gen_history(rng, rng.choice([8, 12, 20, 40]), rng.random() < 0.15, alias=rng.choice([0.15, 0.3, 0.5]))))
+        for t, (how, calls) in enumerate(hists):
+            if not has_caller(calls):
+                continue
+            case = {"kind": "history", "calls": calls}
+            sink.case(case, nontrivial=True)
+            sink.count("schedule:caller-uses-loaded-data/" + how)
+            outs, bad, snap_bad, eff = run_history_eff(new_memory(), calls, "MemoryStorage")
+            for c, o in zip(calls, outs):
+                sink.count("op:" + c[0] + (":" + (EDIT_MODES.get(c[2], "?") if c[0] == "caller_edit" else c[3]) if c[0] in CALLER and o["k"] != "skipped" else ""))
+                sink.count("out:" + (o["v"] if o["k"] == "error" else o["k"]))
+            judge_history(sink, calls, "MemoryStorage", outs, bad, snap_bad, factory)
+            ecalls, eouts, ks = storage_level(calls, outs, eff)
+            q = check_request(ecalls, eouts)
+            if q is not None:
+                checks.append((q, case, "MemoryStorage", ecalls, bad))
+            if how == "systematic" or t % 3 == 0:
+                souts, sbad, ssnap, seff = run_history_eff(factory.new(), calls, "SharedMemoryStorage")
+                sink.count("shared-histories")
+                d = compare_outs(sink, case, "memory", outs, "shared", souts)
+                if d is not None:
+                    sink.fail(f"C13|shared-equals-memory|{(eff[d['call']] or calls[d['call']])[0]}|{variant('SharedMemoryStorage', calls)}",
+                              "SharedMemoryStorage answers differently from MemoryStorage", {"kind": "history", "storage": "both", "calls": calls}, d)
+                judge_history(sink, calls, "SharedMemoryStorage", souts, sbad, ssnap, factory)
+                secalls, seouts, _ = storage_level(calls, souts, seff)
+                q = check_request(secalls, seouts)
+                if q is not None:
+                    checks.append((q, case, "SharedMemoryStorage", secalls, sbad))
+            reqs.append({"op": "hist", "s": 30_000 + t, "calls": [to_storage_call(c) for c in ecalls]})
+            metas.append((calls, ecalls, eouts, ks))
+        with common.LeanDriver("C13") as drv:
+            reps = drv.ask_all(reqs)
+            creps = drv.ask_all([c[0] for c in checks])
+            identity_histories(sink, drv, rng, ngen)
+        for (_, case, label, ecalls, bad), rep in zip(checks, creps):
+            cross_check(sink, case, label, ecalls, bad, rep)
+        for (calls, ecalls, eouts, ks), rep in zip(metas, reps):
+            for i, (x, y) in enumerate(zip(eouts, rep["outs"])):
+                if y["k"] == "oom":
+                    break
+                y = expected_view_out(ecalls[i], y)
+                if cout(x) != cout(y):
+                    sink.mismatch({"kind": "history", "storage": "MemoryStorage", "calls": calls[: ks[i] + 1]}, {"call": ks[i], "impl": cout(x), "model": cout(y)})
+                    break
+    finally:
+        factory.close()
+    return sink
 
 
 def null_histories(ck, drv):
@@ -1554,6 +2166,35 @@ def storage_factory(ck):
                 {"outs": outs, "bad": bad})
 
 
+def store_side_observation(ck):
+    """NOT judged (outside the statement, see notes/C13.md): an in-process MemoryStorage keeps the objects it is given by
+    reference.  Counted in the evidence so that a change of this behaviour is visible: (1) the caller changes an object after
+    storing it, (2) one object stored under two jobs and one of them then extended with store_job_metadata, (3) the live object
+    load_search_value returns stored as a job's metadata and extended."""
+    st = new_memory()
+    s = st.create_new_search()
+    a, b = st.create_new_job(s), st.create_new_job(s)
+    seen = {}
+    try:
+        m = {"u": 1}
+        st.store_job_out(a, m)
+        m["u"] = 2
+        seen["caller-edits-stored-object"] = st.load_job(a)["out"] == {"u": 2}
+        d = {}
+        st.store_job(a, "metadata", d)
+        st.store_job(b, "metadata", d)
+        st.store_job_metadata(b, "k", 1)
+        seen["one-object-stored-under-two-jobs"] = st.load_job(a)["metadata"] == {"k": 1}
+        st.store_search_value(s, "a", {"p": 1})
+        st.store_job(b, "metadata", st.load_search_value(s, "a"))
+        st.store_job_metadata(b, "kk", 1)
+        seen["live-search-value-stored-as-metadata"] = st.load_search_value(s, "a") == {"p": 1, "kk": 1}
+    except Exception as e:
+        seen["raised:" + type(e).__name__] = True
+    for k, v in seen.items():
+        ck.count(f"observation:store-side-reference:{k}:" + ("shared" if v else "not-shared"))
+
+
 def thread_stress(ck, nthreads, per_thread):
     """the manager serves each client from its own thread: hammer one MemoryStorage from threads"""
     st = new_memory()
@@ -1683,7 +2324,11 @@ def run(ck):
                "longer kind sequences sampled), on MemoryStorage, the model, and (n <= 2 quick / <= 3 thorough, plus the sampled ones) SharedMemoryStorage; "
                "(b) generated histories of 5..200 calls incl. a malformed stream (bad ids, reserved job keys, non-dict metadata); (c) 2..8 client processes on one "
                "SharedMemoryStorage (per-client programs of creates/stores/loads; and contended rounds: all clients store own and contested keys of the same jobs/searches, "
-               "targets carrying small or 60 000-float values), thread stress on MemoryStorage, NullStorage ids; distinct by canonical call list; "
+               "targets carrying small or 60 000-float values), thread stress on MemoryStorage, NullStorage ids; (d) histories in which the caller edits in place the objects "
+               "the loads returned (every load kind x every way of editing x {once, twice, a store in between}) or hands a part of a loaded job / search back to the storage "
+               "(every part x every store method x {same job, other job, job of another search}, then store_job_metadata on the receiver), enumerated, plus generated ones; "
+               "(e) scripts of creates / stores of new and of loaded objects / load_job / load_search / load_jobs / in-place edits whose answers are compared object by object "
+               "(same object or new object) with the model of object identities; distinct by canonical call list; "
                "non-trivial = the history creates at least one job")
     ck.assumptions = [
         "the manager server executes each method call atomically (CPython GIL: no eval-breaker check between reading and writing an id counter; checked by disassembly on every run, not proved)",
@@ -1691,6 +2336,10 @@ def run(ck):
         "store_search_value with the keys 'job_id_counter' / 'data' overwrites the storage's own bookkeeping entries: excluded from model, theorems and oracle",
         "store_job with the key 'metadata' and a non-dict value makes later metadata calls raise: modelled (TypeError/AttributeError), not judged by the oracle",
         "exhaustive = over sequences of method kinds with rotated arguments, not over all argument tuples (17^L kinds sequences, L<=5); length 6..7 and beyond are sampled",
+        "caller actions: the caller edits / hands back only what is its own — the whole tree of a load_job / load_search result, the outer container of the other loads; an object handed to the "
+        "storage is from then on shared with it by the caller's own doing (MemoryStorage keeps references, like a dict; the statement promises copies on the load side only): it is not edited "
+        "or handed back again, and one object is never stored at two places (observed and counted, not judged: observation:store-side-reference:*)",
+        "Model/StorageAlias.lean speaks about acyclic values and job tables in which no object occurs twice (deepcopy's memo is not modelled); searches, counters and free search values are not part of it",
     ]
     ck.trusted_extra = ["the dict-of-dicts 'simple map' reference and the linearization builder in harness/c13.py",
                         "multiprocessing.managers (proxy, pickling, one server thread per client)"]
@@ -1740,14 +2389,19 @@ def run(ck):
         prefixes = [tuple(rng.choice(KINDS) for i in range(rng.randint(3, 6))) for _ in range(ck.pick(40, 60))]
         items.append((prefixes, rng.randint(0, 5), True, pre))
     long_items = [(rng.randrange(1 << 30), ck.pick(40, 150), 200, True) for _ in range(ck.pick(6, 28))]
+    # (d) what the caller does with loaded data (edits it / hands it back to the storage) must not matter
+    nparts = ck.pick(3, 6)
+    alias_items = [(rng.randrange(1 << 30), k, nparts, ck.pick(50, 400)) for k in range(nparts)]
     # a sample of the generated histories in this process too (the line-coverage probe only sees this process)
     long_worker((rng.randrange(1 << 30), ck.pick(15, 40), 200, False)).fold(ck)
     storage_factory(ck)
+    store_side_observation(ck)
     nworkers = min(ck.pick(6, 14), os.cpu_count() or 2)
     with ProcessPoolExecutor(max_workers=nworkers, mp_context=mp.get_context("fork")) as pool:
+        f0 = [pool.submit(alias_worker, it) for it in alias_items]
         f1 = [pool.submit(fan_worker, it) for it in items]
         f2 = [pool.submit(long_worker, it) for it in long_items]
-        for f in f1 + f2:
+        for f in f0 + f1 + f2:
             f.result().fold(ck)
 
 
@@ -1770,42 +2424,56 @@ def replay(ck, case, drv=None, quiet=False):
                     if label == "NullStorage":
                         continue
                     st = new_memory() if label == "MemoryStorage" else factory.public()
-                    outs, bad, snap_bad = run_history(st, calls, label)
-                    res[label] = outs
+                    outs, bad, snap_bad, eff = run_history_eff(st, calls, label)
+                    res[label] = (outs, eff)
                     if not quiet:
                         print(f"replay on {label}:")
-                        for c, o in zip(calls, outs):
-                            print("   ", json.dumps(c), "->", json.dumps(cout(o)))
+                        for c, o, e in zip(calls, outs, eff):
+                            print("   ", json.dumps(c), "->", json.dumps(cout(o)), ("   [= " + json.dumps(e) + "]") if c[0] == "store_loaded" and e else "")
                         for b in bad:
                             print("  ORACLE FAILS:", b[0], b[1], json.dumps(b[2])[:600])
                         if snap_bad:
                             print("  ORACLE FAILS: snapshot", json.dumps(snap_bad)[:600])
-                    q = check_request(tok(calls), outs)
+                    ecalls, eouts, _ = storage_level(calls, outs, eff)
+                    q = check_request(tok(ecalls), eouts)
                     if q is not None:
                         crep = drv.ask(q)
                         if not quiet:
                             print(f"  verified checker on the answers of {label}: spec={crep['spec']} first bad answer={crep.get('bad')}")
-                        cross_check(sink, case, label, calls, bad, crep)
+                        cross_check(sink, case, label, ecalls, bad, crep)
                     for clause, method, detail in bad[:3]:
-                        sink.fail(f"C13|{clause}|{method}|{label}", f"{label}.{method}: {clause}", case, detail)
+                        sink.fail(f"C13|{clause}|{method}|{variant(label, calls)}", f"{label}.{method}: {clause}", case, detail)
                     if snap_bad is not None:
-                        sink.fail(f"C13|snapshot|{snap_bad['loaded_by'][0]}|{label}", f"{label}: loaded object changed", case, snap_bad)
+                        sink.fail(f"C13|snapshot|{snap_bad['loaded_by'][0]}|{variant(label, calls)}", f"{label}: loaded object changed", case, snap_bad)
                 if len(res) == 2:
-                    d = compare_outs(sink, case, "memory", res["MemoryStorage"], "shared", res["SharedMemoryStorage"])
+                    d = compare_outs(sink, case, "memory", res["MemoryStorage"][0], "shared", res["SharedMemoryStorage"][0])
                     if d is not None:
-                        sink.fail(f"C13|shared-equals-memory|{calls[d['call']][0]}|SharedMemoryStorage", "SharedMemoryStorage answers differently", case, d)
-                rep = drv.ask({"op": "hist", "s": 999_999, "calls": [to_storage_call(c) for c in tok(calls)]})
-                outs = next(iter(res.values()))
-                for i, (x, y) in enumerate(zip(outs, rep["outs"])):
+                        sink.fail(f"C13|shared-equals-memory|{(res['MemoryStorage'][1][d['call']] or calls[d['call']])[0]}|{variant('SharedMemoryStorage', calls)}",
+                                  "SharedMemoryStorage answers differently", case, d)
+                outs, eff = next(iter(res.values()))
+                ecalls, eouts, ks = storage_level(calls, outs, eff)
+                rep = drv.ask({"op": "hist", "s": 999_999, "calls": [to_storage_call(c) for c in tok(ecalls)]})
+                for i, (x, y) in enumerate(zip(eouts, rep["outs"])):
                     if y["k"] == "oom":
                         break
-                    y = expected_view_out(calls[i], y)
+                    y = expected_view_out(ecalls[i], y)
                     if cout(x) != cout(y):
-                        sink.mismatch(case, {"call": i, "impl": cout(x), "model": cout(y)})
+                        sink.mismatch(case, {"call": ks[i], "impl": cout(x), "model": cout(y)})
                         break
                 sink.case(case)
             finally:
                 factory.close()
+            sink.fold(ck)
+        elif kind == "identity-script":
+            sink = Sink()
+            real = exec_identity_script(case["ops"])
+            rep = drv.ask({"op": "alias", "ops": case["ops"]})
+            ok = compare_identity(sink, case["ops"], real, rep)
+            if not quiet:
+                for op, x, y in zip(case["ops"], real, rep["outs"]):
+                    print("   ", json.dumps(op), "->", json.dumps(x)[:300])
+                print("  object identities as the model predicts:", ok)
+            sink.case(case)
             sink.fold(ck)
         elif kind == "contended":
             import random
